@@ -17,7 +17,7 @@ def cdel(d):
     return "(%s, %s, %s, %s)" % (d[0], d[1], vf.cbool(d[2]), vf.cstr(d[3]))
 
 
-def scenario(seed, snap, duration, nresets):
+def scenario(seed, snap, duration, nresets, suspending=False):
     import random
     rng = random.Random(seed)
     fullstack.reset_config()
@@ -25,7 +25,9 @@ def scenario(seed, snap, duration, nresets):
     async def main(loop):
         import geckolib.config as C
         plan = fullstack.fault_plan(rng, loop.time(), duration)
-        st = fullstack.Stack(loop, snap, plan, rng, latency=rng.choice([0.01, 0.03, 0.07]))
+        srng = random.Random(seed + 99)
+        suspend = (lambda ev: srng.choice([None, 0, 0, 0.01, 0.3])) if suspending else None
+        st = fullstack.Stack(loop, snap, plan, rng, latency=rng.choice([0.01, 0.03, 0.07]), suspend=suspend)
         resets = sorted((rng.uniform(0, duration), rng.choice(["reset", "reset", "setinfo"])) for _ in range(rng.choice([0, 1, nresets])))
         dels = []
         real_he = st.man.handle_event
@@ -97,12 +99,14 @@ def run(ctx):
                 "within the configured bound; the stream of events delivered to the client (with state, facade?, status text at delivery) must be a path of the lifecycle LTS; "
                 "non-trivial = run that visits an error state and has a reset or fault during LOCATING / CONNECTING")
     ctx.prove(extra_targets=["Model/HealChk.vo"], timeout=1800)
-    n = 60 if ctx.thorough else 14
+    n = 60 if ctx.thorough else 20
     exprs, meta = [], []
     for k in range(n):
         snap = SNAPS[k % len(SNAPS)]
         seed = ctx.seed * 1000 + k
-        r = scenario(seed, snap, 300 if ctx.thorough and k % 3 == 0 else 160, nresets=rng_choice(k))
+        suspending = (k % 2 == 1)      # every other run: the client's handler really suspends (0 .. 0.3 s) - the LTS acceptance is skipped for those
+        r = scenario(seed, snap, 300 if ctx.thorough and k % 3 == 0 else 160, nresets=rng_choice(k // 2), suspending=suspending)
+        ctx.count("runs_with_suspending_client_handler" if suspending else "runs_with_atomic_client_handler")
         visited = {s for (t, s) in r["states"]}
         m = {"seed": seed, "snapshot": snap, "healed_after_s": r["healed"], "final": r["state"], "visited": sorted(visited), "resets": r["resets"], "plan": r["plan"][:10],
              "deliveries": len(r["dels"]), "blackouts_watched": [(round(a - 1000, 1), None if b is None else round(b - a, 1), c) for (a, b, c, d) in r["detect"]]}
@@ -124,6 +128,8 @@ def run(ctx):
         for (a, b, bound, end) in r["detect"]:
             if (b is None and end - a > bound) or (b is not None and b - a > bound):
                 ctx.fail("heal:unreachable_not_reported", "the spa became unreachable at %.1f in CONNECTED; still CONNECTED %.0f s later (bound %.0f s)" % (a - 1000, (b or end) - a, bound), replay)
+        if suspending:
+            continue
         dels = [d for d in r["dels"] if d[0] not in SKIP_EVENTS]
         cut = next((i for i, d in enumerate(dels) if d[0] == "SPA_MAN_EXIT"), len(dels))
         dels = dels[:cut]
@@ -132,16 +138,17 @@ def run(ctx):
         m["_dels"] = dels
         m["_ne"] = ne
     res = ctx.coq_cases("heal", HEADER, exprs, shard=2, timeout=1500)
+    meta_acc = [m for m in meta if "_dels" in m]
     bad = [i for i, x in enumerate(res) if x is not True]
     detail = ""
     if bad:
         i = bad[0]
-        dels, ne = meta[i]["_dels"], meta[i]["_ne"]
+        dels, ne = meta_acc[i]["_dels"], meta_acc[i]["_ne"]
         rc, out = vf.coqc_text("C09_dbg", HEADER + "Eval vm_compute in (first_unexplained [%s]).\n" % "; ".join(cdel(d) for d in dels[ne:]), timeout=300)
         import re
         mm = re.search(r"=\s*(\d+)", out)
         lo = int(mm.group(1)) if mm else -1
-        detail = "run %d (seed %s): deliveries explained up to #%d; next: %r ; before: %r" % (i, meta[i]["seed"], lo, dels[ne + lo:ne + lo + 3], dels[max(0, ne + lo - 4):ne + lo])
+        detail = "run %d (seed %s): deliveries explained up to #%d; next: %r ; before: %r" % (i, meta_acc[i]["seed"], lo, dels[ne + lo:ne + lo + 3], dels[max(0, ne + lo - 4):ne + lo])
         ctx.extra["unexplained"] = detail
     for m in meta:
         m.pop("_dels", None)
